@@ -69,6 +69,10 @@ func c17Variants() []c17Variant {
 			i.RDNSS = append(i.RDNSS, T("servers", []string{"2001:db8::55"}, "lifetime", "1500ms"))
 			i.DNSSL = append(i.DNSSL, T("domain_names", []string{"sub.example"}, "lifetime", "2m0.75s"))
 		}},
+		{"preference-low", func(i *ref.Iface) {
+			i.Scalars["preference"] = "low"
+			i.Route = append(i.Route, T("prefix", "2001:db8:1100::/48", "preference", "low"), T("prefix", "2001:db8:1200::/48", "preference", "medium"))
+		}},
 		{"header", func(i *ref.Iface) {
 			i.Scalars["managed"], i.Scalars["preference"], i.Scalars["reachable_time"], i.Scalars["default_lifetime"] = true, "high", "1.5s", "1234s"
 		}},
@@ -370,10 +374,91 @@ func c17Check(c c17Case) (out [][2]string) {
 	return out
 }
 
+// c17HistoryCheck: state carried from one scrape to the next. Two advertising interfaces
+// with wildcard / deprecated stanzas (a scrape fails for an interface that is not prepared
+// yet) are prepared in the given order with a scrape after every step and two more at the
+// end; every scrape either fails or emits each (metric, labels) once, and what a scrape
+// emits equals what a *fresh* Metrics over the same interfaces emits at that moment
+// (differential oracle: history must not matter).
+func c17HistoryCheck(order []int, fwd bool) (out [][2]string) {
+	bad := func(sig, format string, a ...any) {
+		out = append(out, [2]string{sig, fmt.Sprintf("prepared in order %v, forwarding=%t: ", order, fwd) + fmt.Sprintf(format, a...)})
+	}
+	mk := func(name string) ref.Iface {
+		return ref.Iface{Scalars: ref.Table{"name": name, "advertise": true},
+			Prefix: []ref.Table{{}, {"prefix": "2001:db8:d::/64", "deprecated": true, "valid_lifetime": "2h", "preferred_lifetime": "1h"}},
+			Route:  []ref.Table{{}}, RDNSS: []ref.Table{{}}}
+	}
+	doc := ref.Doc{Ifaces: []ref.Iface{mk("eth0"), mk("eth2"), {Scalars: ref.Table{"name": "eth1", "monitor": true}}}}
+	cfg, err := config.Parse(strings.NewReader(doc.TOML()), c17Epoch)
+	if err != nil {
+		return [][2]string{{"C17:history:config-rejected", err.Error()}}
+	}
+	st := system.TestState{Forwarding: fwd}
+	system.VerifSetAddresser(c17Addresser{})
+	defer system.VerifSetAddresser(nil)
+	names := []string{ifiAdvertising, ifiAutoconfiguration, ifiForwarding, ifiMonitoring, advMisconfiguration, advDNSSLLifetime,
+		advPrefixAutonomous, advPrefixOnLink, advPrefixValid, advPrefixPreferred, advRDNSSLifetime, advRouteLifetime}
+	scrape := func(mm *Metrics) (emitted []string, err error, pv any) {
+		metrics := map[string]func(float64, ...string){}
+		for _, n := range names {
+			n := n
+			metrics[n] = func(v float64, labels ...string) {
+				if n == advPrefixValid || n == advPrefixPreferred || n == advRouteLifetime {
+					v = 0 // deprecated lifetimes move with the clock between two scrapes
+				}
+				emitted = append(emitted, fmt.Sprintf("%s{%s}=%v", n, strings.Join(labels, ","), v))
+			}
+		}
+		defer func() { pv = recover() }()
+		err = mm.constScrape(metrics)
+		sort.Strings(emitted)
+		return emitted, err, nil
+	}
+	mm := NewMetrics(metricslite.NewMemory(), "verif", time.Time{}, st, cfg.Interfaces)
+	step := func(what string) {
+		got, gerr, pv := scrape(mm)
+		if pv != nil {
+			bad("C17:history:panic", "%s: scrape panicked: %v", what, pv)
+			return
+		}
+		fresh, ferr, _ := scrape(NewMetrics(metricslite.NewMemory(), "verif", time.Time{}, st, cfg.Interfaces))
+		if (gerr == nil) != (ferr == nil) {
+			bad("C17:history:error-differs", "%s: scrape error %v, a fresh Metrics gives %v", what, gerr, ferr)
+			return
+		}
+		if gerr != nil {
+			return
+		}
+		for i := 1; i < len(got); i++ {
+			if got[i][:strings.Index(got[i], "}")] == got[i-1][:strings.Index(got[i-1], "}")] {
+				bad("C17:history:duplicate-sample", "%s: %s emitted more than once in one scrape", what, got[i][:strings.Index(got[i], "}")+1])
+				return
+			}
+		}
+		if fmt.Sprint(got) != fmt.Sprint(fresh) {
+			bad("C17:history:differs-from-fresh", "%s: scrape emitted\n  %v\na fresh Metrics over the same interfaces emits\n  %v", what, got, fresh)
+		}
+	}
+	step("nothing prepared")
+	for _, i := range order {
+		for _, p := range cfg.Interfaces[i].Plugins {
+			if err := p.Prepare(&net.Interface{Index: i + 1, Name: cfg.Interfaces[i].Name, HardwareAddr: net.HardwareAddr{2, 0, 0, 0, 0, byte(i)}}); err != nil {
+				bad("C17:history:prepare", "%v", err)
+				return out
+			}
+		}
+		step(fmt.Sprintf("after preparing %s", cfg.Interfaces[i].Name))
+	}
+	step("again")
+	step("and again")
+	return out
+}
+
 func TestVerifC17(t *testing.T) {
 	r := ev.Begin("C17", "enum")
 	defer r.End(t)
-	r.Rule = "cases = configurations (no stanza; each of 15 stanza variants alone: static/wildcard/deprecated prefix and route, static/wildcard RDNSS, DNSSL, MTU, no source LLA, captive portal, PREF64, non-default header; all together; all minus each) x lifecycle {plugins never prepared, prepared through the real Prepare with the NewAddresser seam} x State reads {ok, failing} x forwarding {on,off} x debug.prometheus x debug.pprof; for each: one metrics scrape (constScrape and Memory.Series) and GET /_/api/interfaces, /metrics, /debug/pprof/ on the real crhttp.Handler, under recover; oracle: no panic ever; prepared + readable state => every sample and the JSON equal the reference RA (every option kind rendered); /metrics and /debug/pprof/ are 200 iff enabled, 404 otherwise; non-trivial = configuration has a stanza; distinct = distinct case"
+	r.Rule = "cases = configurations (no stanza; each of 16 stanza variants alone: static/wildcard/deprecated prefix and route, static/wildcard RDNSS, DNSSL, MTU, no source LLA, captive portal, PREF64, non-default header; all together; all minus each) x lifecycle {plugins never prepared, prepared through the real Prepare with the NewAddresser seam} x State reads {ok, failing} x forwarding {on,off} x debug.prometheus x debug.pprof; for each: one metrics scrape (constScrape and Memory.Series) and GET /_/api/interfaces, /metrics, /debug/pprof/ on the real crhttp.Handler, under recover; oracle: no panic ever; prepared + readable state => every sample and the JSON equal the reference RA (every option kind rendered); /metrics and /debug/pprof/ are 200 iff enabled, 404 otherwise; plus scrape histories over two advertising interfaces prepared one after the other (scrape after every step): no duplicate sample, and every scrape equals the scrape of a fresh Metrics (history must not matter); non-trivial = configuration has a stanza; distinct = distinct case"
 	if r.Replay != nil {
 		var c c17Case
 		if err := json.Unmarshal(r.Replay, &c); err != nil {
@@ -385,6 +470,14 @@ func TestVerifC17(t *testing.T) {
 			r.Violation(v[0], v[1], c)
 		}
 		return
+	}
+	for _, order := range [][]int{{0, 1}, {1, 0}, {0}, {1}} {
+		for _, fwd := range []bool{true, false} {
+			r.Case(fmt.Sprint("history ", order, fwd), true)
+			for _, v := range c17HistoryCheck(order, fwd) {
+				r.Violation(v[0], v[1], nil)
+			}
+		}
 	}
 	all := c17Variants()
 	var sets [][]string
